@@ -129,6 +129,9 @@ pub fn check(id: &str, tier: Tier) -> i32 {
   if id == "C20" {
     c20_readonly(&run);
   }
+  if id == "C11" {
+    crate::props_grid::c11_rewind_grid(&run);
+  }
   if id == "C03" {
     crate::props_sched::c03_concurrent(&run, thorough);
     c03_layout_grid(&run, thorough);
